@@ -209,6 +209,7 @@ fn scenario(agg: Agg, input: Vec<KV>, assign: Vec<usize>, p: u64, ts: bool, in_l
         max_execs: 0,
         shards: 1,
         nontrivial: input.len() >= 2,
+        unbounded: false,
     }
 }
 
